@@ -205,7 +205,29 @@ def _c15(tier, seed):
         dict(name="strings", pkg="internal/encoding/tl", harness=["harness/tl/kernel.go"], runs=kern, solver="z3", procs=1, timeout=1500, validate_runs=kern, covers={"H_popmessage_arbitrary": ["accepted"]}),
     ]
 
+NET_HARNESS = ["harness/root/net.go"]
+
+
+def _c09(tier, seed):
+    q = tier == "quick"
+    runs = []
+    for kind in (0, 1, 2):
+        for pack in (0, 1):
+            runs.append("H_C09_results(2,%d,%d)" % (kind, pack))
+    runs.append("H_C09_results(3,0,0)")
+    if not q:
+        runs += ["H_C09_results(3,1,1)", "H_C09_results(3,2,0)", "H_C09_results(3,2,1)"]
+    return [dict(name="rpc", pkg=".", harness=NET_HARNESS + ["harness/root/c09.go"], runs=runs, solver="z3", walllimit=600, timeout=3000,
+                 validate_runs=["H_C09_results(2,0,0)", "H_C09_results(2,1,1)"], veclen=200)]
+
 PROPS = {
+    "C09": dict(
+        jobs=_c09,
+        bounds={"quick": "2 concurrent callers (3 for object results) x every answer order x {plain messages, one container} x result kinds {object, Bool, bare Vector<long> with hint}; result payloads symbolic; schedules: every choice of the next goroutine at each transport write (symbolic scheduling decisions), deterministic lowest-id-first elsewhere; concrete clock (1 us per reading)",
+                "thorough": "3 callers for every kind/packaging"},
+        outside="more goroutines; real sockets and crypto (fake transport at the messages.Common level); gzip-packed results (C15/C16 exercise the gzip decoder); schedules that differ only between yield points",
+        assumptions=["cooperative scheduling model: a goroutine runs until it blocks, finishes or reaches a transport write", "time.Now stubbed by a concrete advancing clock"],
+    ),
     "C15": dict(
         jobs=_c15,
         bounds={"quick": "70 seed-chosen registered ids (enums included) followed by up to 3 arbitrary 32-bit words cut at every word boundary and one byte short of it; 20 with vector hints; 30 named decodes; msg_container and gzip_packed (identity-coded gzip stub) with arbitrary bodies; nested constructor ids from the stated candidate set (2 implementers per interface-typed field one level deep, one enum member, pong/rpc_error/msgs_ack, unregistered); allocation obligation size*elem <= 16*len(input)+4096 at every make/MakeSlice with a symbolic size; sizes <= 3 exhaustive, 1 larger representative",
